@@ -559,6 +559,37 @@ func (s *Seq) opResave(op *Op) {
 		s.fail(s.readTag(), "live-get-failed", "GetByUUID of live lid=%d failed: %v", op.Lid, err)
 	}
 	r := o.(*shapes.Rec)
+	if op.Flag {
+		// read-modify-write that gets refused: the caller changes what the read returned in
+		// place (through the containers it holds) and makes it invalid; neither the changes
+		// nor the refused call may show up in later reads
+		for i := range r.AR {
+			for j := range r.AR[i].Tags {
+				r.AR[i].Tags[j] = "REFUSED"
+			}
+			if r.AR[i].Attrs != nil {
+				r.AR[i].Attrs["refused"] = 1
+			}
+			if r.AR[i].Sub != nil {
+				r.AR[i].Sub.S = "REFUSED"
+			}
+		}
+		for i := range r.LS {
+			for j := range r.LS[i].Tags {
+				r.LS[i].Tags[j] = "REFUSED"
+			}
+		}
+		for _, p := range r.AP {
+			if p != nil {
+				p.S = "REFUSED"
+			}
+		}
+		for k := range r.M {
+			r.M[k] = -1
+		}
+		r.Raw = "bad"
+		s.stat("probe:read-modify-refused")
+	}
 	exp, classes := s.expectWrite(s.M, r, "")
 	s.hookBegin()
 	err = s.db.InsertOrUpdate(r)
